@@ -114,6 +114,10 @@ class Harness:
             if len(self.harness_errors) < 5:
                 self.harness_errors.append(msg + "\nCASE: " + json.dumps(case, default=str)[:4000])
             raise
+        return self.record(case, res, raise_on_violation)
+
+    def record(self, case: Any, res: CaseResult, raise_on_violation: bool = False) -> Optional[CaseResult]:
+        """Account for an evaluated case (also used by state machines, which evaluate while generating)."""
         self.cases += 1
         if res.skipped:
             self.skipped[res.skipped] = self.skipped.get(res.skipped, 0) + 1
@@ -200,6 +204,46 @@ class Harness:
                 self.done_buckets.add(self.target)
                 self.target = None
             total += max(self.cases - before, 1)
+
+    def run_machine(self, machine_factory: Callable[[], Any], batch: int = 50, steps: int = 25) -> None:
+        """Drive a Hypothesis RuleBasedStateMachine class (built by machine_factory for this harness)."""
+        import hypothesis
+        from hypothesis import HealthCheck, Phase, settings
+        from hypothesis.stateful import run_state_machine_as_test
+
+        b = 0
+        while self.time_left() > 0:
+            bseed = (self.seed * 1000003 + self.shard * 7919 + b * 104729 + 17) % (2**63)
+            b += 1
+            self.target = None
+            M = hypothesis.seed(bseed)(machine_factory())
+            try:
+                run_state_machine_as_test(
+                    M,
+                    settings=settings(
+                        max_examples=batch,
+                        stateful_step_count=steps,
+                        database=None,
+                        deadline=None,
+                        derandomize=False,
+                        report_multiple_bugs=False,
+                        suppress_health_check=list(HealthCheck),
+                        phases=[Phase.generate, Phase.shrink],
+                        print_blob=False,
+                    ),
+                )
+            except Violation:
+                pass
+            except BaseException as e:  # noqa: BLE001
+                if isinstance(e, KeyboardInterrupt):
+                    raise
+                if self.target is None:
+                    if not self.harness_errors:
+                        self.harness_errors.append(traceback.format_exc())
+                    break
+            if self.target is not None:
+                self.done_buckets.add(self.target)
+                self.target = None
 
     # ------------------------------------------------------------------
     def report(self) -> Dict[str, Any]:
